@@ -64,7 +64,7 @@ def check_array_shape(inp: np.ndarray, dims: tuple, shape_m1: int, length=None, 
                 return None
             if shape_m1 == "any":
                 return None
-        elif len(inp) == length:
+        elif len(inp) == length and shape_m1 in (inp.shape[-1], "any"):
             return None
     raise MagpylibBadUserInput(msg)
 
